@@ -290,7 +290,7 @@ class UnitChecker:
         if base in ('zeros', 'empty', 'zeros_like', 'empty_like'):
             return ANY          # element type inferred from the first store
         if base in ('sum', 'array', 'asarray', 'sort', 'unique', 'concatenate', 'append', 'float', 'copy', 'cumsum',
-                    'tolist', 'insert', 'list'):
+                    'tolist', 'insert', 'list', 'float64', 'double'):
             if base == 'insert' and len(args) >= 3:
                 return self.unify(args[0], args[2], e, 'np.insert of different types')
             if base in ('concatenate',):
